@@ -578,6 +578,32 @@ func classifyDump3(d string) (closeWaiting bool, readers, writers map[string]boo
 	return
 }
 
+// chanSenders: goroutines in state "chan send" with a frame of the server package.
+func chanSenders(d string) map[string]bool {
+	out := map[string]bool{}
+	for _, blk := range strings.Split(d, "\n\n") {
+		t := strings.TrimLeft(blk, "\n")
+		hdr := strings.SplitN(t, "\n", 2)[0]
+		if strings.Contains(hdr, "[chan send") && strings.Contains(blk, "gca-backend/server.") {
+			if m := goroutineHdr.FindStringSubmatch(t); m != nil {
+				out[m[1]] = true
+			}
+		}
+	}
+	return out
+}
+
+func commonKeys(a, b map[string]bool) []string {
+	var out []string
+	for k := range a {
+		if b[k] {
+			out = append(out, k)
+		}
+	}
+	sort.Strings(out)
+	return out
+}
+
 func dumpExcerpt(d string) string {
 	var keep []string
 	for _, blk := range strings.Split(d, "\n\n") {
@@ -695,11 +721,21 @@ func (w *world) closeJudged(ctx string, held []net.Conn, desc string) bool {
 			"Close() has not returned after %.0f s: it waits in ThreadGroup.Stop while %d sync handler goroutine(s) (ids %v, same in two dumps %v apart) are parked in io.ReadFull on connections the peer keeps idle – permanent while the peer stays idle", time.Since(t0).Seconds(), len(common), common, wait/2+2*time.Second)
 		ok = false
 	} else {
+		if cs := commonKeys(chanSenders(d1), chanSenders(d2)); c1 && c2 && len(cs) > 0 {
+			w.r.Violationf("shutdown-blocked-by-goroutine-parked-in-channel-send", map[string]interface{}{"scenario": desc, "context": ctx, "batch": w.b, "goroutines": dumpExcerpt(d2), "parked": cs},
+				"Close() has not returned after %.0f s: it waits in ThreadGroup.Stop while %d goroutine(s) of the server (ids %v, same in two dumps %v apart) are parked in a channel send that nobody receives any more", time.Since(t0).Seconds(), len(cs), cs, wait/2+2*time.Second)
+			w.closeDead, w.failed = true, true
+			return false
+		}
 		w.r.Inconc(fmt.Sprintf("Close() did not return within %.0f s (%s) and the goroutine dumps do not show the idle-sync pattern (close waiting: %v/%v, parked handlers: %d/%d, held: %d); dump: %.1500s", time.Since(t0).Seconds(), desc, c1, c2, len(r1), len(r2), len(held), dumpExcerpt(d2)))
 		ok = false
 	}
 	for _, c := range held {
 		c.Close()
+	}
+	if len(held) == 0 {
+		wait = time.Second // nothing was released: no reason to expect a change
+		w.closeDead = true
 	}
 	select {
 	case err := <-done:
